@@ -30,7 +30,8 @@ BUILTINS = {
     'ValueError', 'TypeError', 'NotImplementedError', 'AssertionError', 'RuntimeError', 'IndexError',
     'AttributeError', 'KeyError', 'Exception', 'StopIteration', 'ImportError', 'ModuleNotFoundError',
     'UserWarning', 'NotImplemented', 'Ellipsis', 'frozenset', 'bytes', 'input', 'format', 'property',
-    'staticmethod', 'classmethod', 'ZeroDivisionError', 'OverflowError', 'FloatingPointError',
+    'staticmethod', 'classmethod', 'ZeroDivisionError', 'OverflowError', 'FloatingPointError', 'LookupError', 'ArithmeticError', 'OSError', 'IOError',
+    'UnboundLocalError', 'NameError', 'RecursionError', 'MemoryError', 'BaseException', 'Warning', 'DeprecationWarning', 'RuntimeWarning', 'FutureWarning',
 }
 
 
@@ -409,6 +410,9 @@ class FuncGraph:
     def st_Assert(self, s, env):
         c = self.expr(s.test, env)
         self.event('assert', c, s)
+        if c.op == 'bool' and c.args[0] == 'Or' and not self._loops:
+            # `assert a or b or c`: one of the alternatives holds from here on (used by st_If: the last alternative that is tested cannot fail)
+            self.__dict__.setdefault('_asserted_or', []).append(([x.id for x in c.args[1]], len(self._inline_stack)))
         if isinstance(s.test, ast.Constant) and not s.test.value:
             return ('term', RAISE)
         return None
@@ -472,7 +476,10 @@ class FuncGraph:
             return None
         v = self.expr(s.value, env)
         for t in s.targets:
-            self.assign(t, v, env, s)
+            if isinstance(s.value, (ast.GeneratorExp, ast.ListComp)) and isinstance(t, (ast.Tuple, ast.List)):
+                self._assign_display(t, v, env, s)          # a, b = (f(x) for x in <display>), unrolled by _comp
+            else:
+                self.assign(t, v, env, s)
         return None
 
     def st_AnnAssign(self, s, env):
@@ -489,6 +496,11 @@ class FuncGraph:
             new = self.mk('iop', (opn, old, rhs), s)
             self.event('inplace', new, s, data=dict(target=old, how='augassign', name=t.id))
             self.bind(t.id, new, env, s)
+        elif isinstance(t, ast.Subscript) and isinstance(t.value, ast.Name) and t.value.id in self.record_names() and isinstance(t.slice, ast.Constant):
+            old = env.get(('$rec', t.value.id, t.slice.value), UNDEF)
+            new = self.mk('iop', (opn, old, rhs), s)
+            self.event('inplace', new, s, data=dict(target=old, how='augassign', name=None))
+            env[('$rec', t.value.id, t.slice.value)] = new
         elif isinstance(t, ast.Subscript):
             base_old = self.expr(t.value, env)
             idx = self.index(t.slice, env)
@@ -520,6 +532,10 @@ class FuncGraph:
         self._guards.append((c, True))
         env_t, ret_t = self.block(body, et)
         self._guards.pop()
+        # every other alternative of an asserted `a or b or c` has been refuted on this path: the test cannot fail, its else-arm is not a path
+        refuted = {g.id for g, pol in self._guards if not pol}
+        if any(c.id in ids and depth == len(self._inline_stack) and all(i == c.id or i in refuted for i in ids) for ids, depth in self.__dict__.get('_asserted_or', [])):
+            return ('branch', c, env_t, ret_t, None, RAISE)
         self._guards.append((c, False))
         env_f, ret_f = self.block(orelse, ef)
         self._guards.pop()
@@ -549,9 +565,49 @@ class FuncGraph:
                 et[n] = self.mk('refine', (env[n], 'notnone', None), test)
                 ef[n] = self.mk('refine', (env[n], 'isnone', None), test)
 
+    def record_names(self):
+        """local names that hold a plain record: bound to a dict display / dict(k=v) with constant string keys and used ONLY as name['key'] (read, written, updated in place) or
+        **name.  Such a dict is a bundle of independent variables; it is replaced by them (scalar replacement), so that values threaded through `state['model']` are followed
+        like values threaded through `model`."""
+        fn_node = self.cur_fn.node if hasattr(self.cur_fn, 'node') else None
+        if fn_node is None:
+            return frozenset()
+        cache = self.__dict__.setdefault('_record_cache', {})
+        if id(fn_node) in cache:
+            return cache[id(fn_node)]
+        cand, bad = set(), set()
+        ok_uses = set()
+        nested_nodes = set()
+        for n in ast.walk(fn_node):
+            if isinstance(n, (ast.FunctionDef, ast.AsyncFunctionDef, ast.Lambda)) and n is not fn_node:
+                for x in ast.walk(n):
+                    nested_nodes.add(id(x))
+        for n in ast.walk(fn_node):
+            if isinstance(n, ast.Assign) and len(n.targets) == 1 and isinstance(n.targets[0], ast.Name):
+                v = n.value
+                if (isinstance(v, ast.Dict) and all(isinstance(k, ast.Constant) and isinstance(k.value, str) for k in v.keys)) or \
+                        (isinstance(v, ast.Call) and isinstance(v.func, ast.Name) and v.func.id == 'dict' and not v.args and all(k.arg is not None for k in v.keywords)):
+                    cand.add(n.targets[0].id)
+                    ok_uses.add(id(n.targets[0]))
+            if isinstance(n, ast.Subscript) and isinstance(n.value, ast.Name) and isinstance(n.slice, ast.Constant) and isinstance(n.slice.value, str):
+                ok_uses.add(id(n.value))
+            if isinstance(n, ast.Call):
+                for k in n.keywords:
+                    if k.arg is None and isinstance(k.value, ast.Name):
+                        ok_uses.add(id(k.value))
+        for n in ast.walk(fn_node):
+            if isinstance(n, ast.Name) and n.id in cand and (id(n) not in ok_uses or id(n) in nested_nodes):
+                bad.add(n.id)
+        # written by key somewhere: a dict that is only read is left as the literal it is
+        written = {n.value.id for n in ast.walk(fn_node) if isinstance(n, ast.Subscript) and isinstance(n.ctx, (ast.Store, ast.Del)) and isinstance(n.value, ast.Name)}
+        out = frozenset((cand - bad) & written)
+        cache[id(fn_node)] = out
+        return out
+
     def assigned_names(self, stmts):
         names, attrs = set(), set()
         new_helpers = self.prog.new_helper_names()
+        records = self.record_names()
 
         class V(ast.NodeVisitor):
             def visit_Name(s2, n):
@@ -568,6 +624,9 @@ class FuncGraph:
                 names.add(n.name)
 
             def visit_Subscript(s2, n):
+                if isinstance(n.ctx, ast.Store) and isinstance(n.value, ast.Name) and n.value.id in records and isinstance(n.slice, ast.Constant):
+                    attrs.add(('$rec', n.value.id, n.slice.value))
+                    return
                 if isinstance(n.ctx, ast.Store):
                     b = n.value
                     while isinstance(b, (ast.Subscript, ast.Attribute)):
@@ -610,11 +669,11 @@ class FuncGraph:
             v.visit(st)
         return names | attrs
 
-    def _loop(self, s, env, kind):
+    def _loop(self, s, env, kind, iter_term=None):
         loop = Loop(s, kind)
         self.loops.append(loop)
         if kind == 'for':
-            loop.iter = self.expr(s.iter, env)
+            loop.iter = iter_term if iter_term is not None else self.expr(s.iter, env)
         carried = self.assigned_names(s.body)
         if kind == 'for':
             carried |= self.assigned_names([ast.Assign(targets=[s.target], value=ast.Constant(0))])
@@ -642,8 +701,16 @@ class FuncGraph:
         back = env_b
         for ce in loop.continues:
             back = self.merge(self.nondet(s, 'continue'), back, ce)
+        projected = {m.id for m, _s, _i, _n in self.__dict__.get('_mu_proj', {}).values()}
         for k, mu in loop.mus.items():
+            if mu.id in projected:
+                continue
             mu.next = (back or {}).get(k, UNDEF) if back is not None else None
+        for key, (m, src, i_, n_) in list(self.__dict__.get('_mu_proj', {}).items()):
+            if src.extra[0] is loop and m.next is None:
+                nxt = src.next
+                comp = self.project(nxt, i_, n_, s, 1, top=True) if isinstance(nxt, T) else None
+                m.next = comp if comp is not None else (self.mk('unpack', (nxt, i_, n_, None, None), s) if isinstance(nxt, T) else nxt)
         # exit: loop head (zero or more iterations completed) + breaks
         out = dict(head_env)
         for be in loop.breaks:
@@ -671,7 +738,17 @@ class FuncGraph:
         return ('branch', self.nondet(s, 'loop-return'), None, ret, env, FALL)
 
     def st_For(self, s, env):
-        return self._loop(s, env, 'for')
+        # `for step in ((f, a), (g, b)): ...` over a short literal display is the body written out once per element
+        it = self.expr(s.iter, env)
+        simple = not s.orelse and not any(isinstance(n, (ast.Break, ast.Continue, ast.Return, ast.Yield, ast.YieldFrom)) for b in s.body for n in ast.walk(b))
+        if simple and it.op in ('tuple', 'list') and 1 <= len(it.args[0]) <= 6 and not any(x.op == 'star' for x in it.args[0]) and not self._loops:
+            for item in it.args[0]:
+                self._assign_display(s.target, item, env, s)
+                env_b, ret_b = self.block(s.body, env)
+                if env_b is None:
+                    return ('term', ret_b)
+            return None
+        return self._loop(s, env, 'for', it)
 
     def st_While(self, s, env):
         return self._loop(s, env, 'while')
@@ -762,7 +839,32 @@ class FuncGraph:
             if isinstance(b, ast.Name):
                 env[b.id] = self.mk('store', (env.get(b.id, UNDEF), self.mk('unknown', ('nested index',), node), new_value), node)
 
+    def _assign_display(self, target, value, env, node):
+        """a, (b, c) = <display (x, (y, z))>: component-wise"""
+        if isinstance(target, (ast.Tuple, ast.List)) and isinstance(value, T) and value.op in ('tuple', 'list') and len(value.args[0]) == len(target.elts) \
+                and not any(isinstance(e, ast.Starred) for e in target.elts) and not any(x.op == 'star' for x in value.args[0]):
+            for e, v in zip(target.elts, value.args[0]):
+                self._assign_display(e, v, env, node)
+        else:
+            self.assign(target, value, env, node)
+
     def assign(self, target, value, env, node):
+        if isinstance(target, ast.Name) and target.id in self.record_names() and isinstance(value, T) and value.op == 'dict':
+            keys = self.__dict__.setdefault('_rec_keys', {}).setdefault((id(self.cur_fn), target.id), [])
+            for k in [k for k in list(env) if isinstance(k, tuple) and k[:2] == ('$rec', target.id)]:
+                del env[k]
+            del keys[:]
+            for k, v in zip(value.args[0], value.args[1]):
+                env[('$rec', target.id, k.args[0])] = v
+                keys.append(k.args[0])
+            env[target.id] = value
+            return
+        if isinstance(target, ast.Subscript) and isinstance(target.value, ast.Name) and target.value.id in self.record_names() and isinstance(target.slice, ast.Constant):
+            keys = self.__dict__.setdefault('_rec_keys', {}).setdefault((id(self.cur_fn), target.value.id), [])
+            if target.slice.value not in keys:
+                keys.append(target.slice.value)
+            env[('$rec', target.value.id, target.slice.value)] = value
+            return
         if isinstance(target, ast.Name):
             self.bind(target.id, value, env, node)
         elif isinstance(target, (ast.Tuple, ast.List)):
@@ -771,7 +873,7 @@ class FuncGraph:
             self.note_shape_decl(target, value)
             for i, e in enumerate(target.elts):
                 tn = e.value if isinstance(e, ast.Starred) else e
-                u = self.project(value, i, n, node) if star is None else None
+                u = self.project(value, i, n, node, top=not isinstance(getattr(node, 'value', None), (ast.Tuple, ast.List))) if star is None else None
                 if u is None:
                     u = self.mk('unpack', (value, i, n, star, tn.id if isinstance(tn, ast.Name) else None), node)
                 self.assign(e.value if isinstance(e, ast.Starred) else e, u, env, node)
@@ -789,21 +891,46 @@ class FuncGraph:
             if isinstance(target.value, ast.Name):
                 env[('$attr', target.value.id, target.attr)] = value
 
-    def project(self, value, i, n, node, depth=0):
+    def project(self, value, i, n, node, depth=0, top=False):
         """i-th component of a value that is a gamma tree of n-tuple displays (the tuple a helper returns on each of its
         paths): a, b = gamma(c, (x1, y1), (x2, y2))  ->  a = gamma(c, x1, x2).  None if the value has another form."""
         if depth > 12 or not isinstance(value, T):
             return None
         if value.op == 'gamma':
-            a = self.project(value.args[1], i, n, node, depth + 1)
-            b = self.project(value.args[2], i, n, node, depth + 1)
-            if a is None or b is None:
+            a = self.project(value.args[1], i, n, node, depth + 1, top)
+            b = self.project(value.args[2], i, n, node, depth + 1, top)
+            if a is None and b is None:
                 return None
+            # one alternative is a tuple display, the other a call that returns the tuple: a, b = (x, y) if c else f()  ->  a = x if c else f()[0]
+            if a is None:
+                a = self.mk('unpack', (value.args[1], i, n, None, None), node)
+            if b is None:
+                b = self.mk('unpack', (value.args[2], i, n, None, None), node)
             return self.mk('gamma', (value.args[0], a, b), node)
         if value.op == 'raise' or (value.op == 'unknown' and value.args == ('keyerror',)):
             return value          # a path that does not return (KeyError of a dispatch table): no component to select
-        if value.op == 'tuple' and depth > 0 and len(value.args[0]) == n and not any(isinstance(x, T) and x.op == 'star' for x in value.args[0]):
+        if value.op == 'tuple' and (depth > 0 or top) and len(value.args[0]) == n and not any(isinstance(x, T) and x.op == 'star' for x in value.args[0]):
             return value.args[0][i]
+        if value.op == 'mu' and isinstance(value.extra, tuple):
+            # a pair that is carried around a loop as ONE variable (`posterior = (affiliation, quadratic_form)` ... `a, q = posterior`): its components are carried
+            # individually.  The back-edge value of the component is filled in when the loop is closed (_loop).
+            reg = self.__dict__.setdefault('_mu_proj', {})
+            key = (value.id, i, n)
+            if key in reg:
+                return reg[key][0]
+            init_i = self.project(value.args[0], i, n, node, depth + 1, top=True)
+            if init_i is None:
+                return None
+            m = self.mk('mu', (init_i,), node)
+            m.extra = (value.extra[0], f'{value.extra[1]}[{i}]')
+            reg[key] = (m, value, i, n)
+            value.extra[0].mus[f'{value.extra[1]}[{i}]'] = m
+            if value.next is not None:
+                # the loop is closed already (`state.model` after the loop): the back-edge value is known
+                nxt = value.next
+                comp = self.project(nxt, i, n, node, 1, top=True) if isinstance(nxt, T) else None
+                m.next = comp if comp is not None else (self.mk('unpack', (nxt, i, n, None, None), node) if isinstance(nxt, T) else nxt)
+            return m
         return None
 
     def note_shape_decl(self, target, value):
@@ -850,7 +977,10 @@ class FuncGraph:
                 if isinstance(v, ast.Constant) and isinstance(v.value, (int, float, str, bool, type(None))):
                     return const(v.value, node, self.fn)
                 # a module-level constant EXPRESSION of library constants / functions only (`_LOG_2PI = np.log(2 * np.pi)`) is that expression
-                if v is not None and isinstance(v, (ast.BinOp, ast.Call, ast.UnaryOp, ast.Attribute)) and len(list(ast.walk(v))) <= 25 and self._pure_library_expr(v, r[1]):
+                if self._namedtuple_fields(r) is not None:
+                    return self.mk('ref', (r,), node)          # a record type: calls of it build tuples with named components (canonical_call)
+                if v is not None and isinstance(v, (ast.BinOp, ast.Call, ast.UnaryOp, ast.Attribute)) and len(list(ast.walk(v))) <= 25 and \
+                        (self._pure_library_expr(v, r[1]) or self._module_partial(v, r[1])):
                     saved = self.cur_fn
                     self.cur_fn = _ModScope(r[1])
                     try:
@@ -864,6 +994,42 @@ class FuncGraph:
             return self.mk('ref', (('builtin', name),), node)
         return self.mk('unknown', ('name', name), node)
 
+    def _namedtuple_fields(self, cls):
+        """(field names in order, {name: default expression}) of a `class X(NamedTuple)` or of a module-level `X = namedtuple('X', [...])`; None for anything else"""
+        if isinstance(cls, tuple) and cls and cls[0] == 'global':
+            v = cls[1].globals_assigned.get(cls[2])
+            if isinstance(v, ast.Call) and ast.unparse(v.func).split('.')[-1] == 'namedtuple' and len(v.args) == 2 and not v.keywords:
+                spec = v.args[1]
+                if isinstance(spec, (ast.List, ast.Tuple)) and all(isinstance(x, ast.Constant) and isinstance(x.value, str) for x in spec.elts):
+                    return [x.value for x in spec.elts], {}
+                if isinstance(spec, ast.Constant) and isinstance(spec.value, str):
+                    return spec.value.replace(',', ' ').split(), {}
+            return None
+        if not isinstance(cls, Cls):
+            return None
+        if not any(ast.unparse(b).split('.')[-1] == 'NamedTuple' for b in cls.base_exprs):
+            return None
+        names, defaults = [], {}
+        for b in cls.node.body:
+            if isinstance(b, ast.AnnAssign) and isinstance(b.target, ast.Name):
+                names.append(b.target.id)
+                if b.value is not None:
+                    defaults[b.target.id] = b.value
+        return (names, defaults) if names else None
+
+    def _module_partial(self, v, mod):
+        """`_norm = functools.partial(<function>, <constant options>)` at module level"""
+        if not (isinstance(v, ast.Call) and isinstance(self.prog.lookup(mod, v.func.value.id) if isinstance(v.func, ast.Attribute) and isinstance(v.func.value, ast.Name) else
+                                                       self.prog.lookup(mod, v.func.id) if isinstance(v.func, ast.Name) else None, (Lib, Mod))):
+            return False
+        if ast.unparse(v.func).split('.')[-1] != 'partial' or not v.args:
+            return False
+        rest = list(v.args[1:]) + [k.value for k in v.keywords]
+        def constant(x):
+            return isinstance(x, ast.Constant) or (isinstance(x, ast.UnaryOp) and isinstance(x.operand, ast.Constant)) or \
+                (isinstance(x, (ast.Tuple, ast.List)) and all(constant(y) for y in x.elts))
+        return isinstance(v.args[0], (ast.Name, ast.Attribute)) and all(constant(x) for x in rest) and all(k.arg is not None for k in v.keywords)
+
     def _pure_library_expr(self, v, mod):
         for x in ast.walk(v):
             if isinstance(x, ast.Name):
@@ -874,11 +1040,45 @@ class FuncGraph:
                 return False
         return True
 
+    def _named_component(self, base, name, node, depth=0):
+        """state.model for a (conditional of) NamedTuple value(s) built in this function: the component"""
+        if depth > 6 or not isinstance(base, T):
+            return None
+        if base.op == 'refine':
+            return self._named_component(base.args[0], name, node, depth + 1)
+        if base.op == 'tuple' and isinstance(base.extra, tuple) and base.extra and base.extra[0] == 'fields':
+            return base.args[0][base.extra[1].index(name)] if name in base.extra[1] else None
+        if base.op == 'raise' or (base.op == 'unknown' and base.args == ('keyerror',)):
+            return base if depth > 0 else None          # a path that does not continue
+        if base.op == 'gamma':
+            a, b = self._named_component(base.args[1], name, node, depth + 1), self._named_component(base.args[2], name, node, depth + 1)
+            if a is not None and b is not None and all(x.op == 'raise' or (x.op == 'unknown' and x.args == ('keyerror',)) for x in (a, b)):
+                return None
+            if a is not None and b is not None:
+                return self.mk('gamma', (base.args[0], a, b), node)
+        if base.op == 'mu':
+            names = self._field_names(base.args[0])
+            if names is not None and name in names:
+                return self.project(base, names.index(name), len(names), node, top=True)
+        return None
+
+    def _field_names(self, t, depth=0):
+        while isinstance(t, T) and t.op in ('refine', 'mu') and depth < 8:
+            t, depth = t.args[0], depth + 1
+        if isinstance(t, T) and t.op == 'tuple' and isinstance(t.extra, tuple) and t.extra and t.extra[0] == 'fields':
+            return list(t.extra[1])
+        if isinstance(t, T) and t.op == 'gamma' and depth < 8:
+            return self._field_names(t.args[1], depth + 1) or self._field_names(t.args[2], depth + 1)
+        return None
+
     def load_attr(self, e, base, env):
         if isinstance(e.value, ast.Name):
             k = ('$attr', e.value.id, e.attr)
             if k in env:
                 return env[k]
+        c = self._named_component(base, e.attr, e)
+        if c is not None:
+            return c
         if base.op == 'ref':
             o = base.args[0]
             if isinstance(o, (Mod, Lib)):
@@ -973,8 +1173,27 @@ class FuncGraph:
                 args.append(self.mk('star', (self.expr(a.value, env),), a))
             else:
                 args.append(self.expr(a, env))
-        kws = [(k.arg, self.expr(k.value, env)) for k in e.keywords]
+        kws = []
+        for k in e.keywords:
+            if k.arg is None and isinstance(k.value, ast.Name) and k.value.id in self.record_names() and k.value.id in env:
+                for key in self.__dict__.get('_rec_keys', {}).get((id(self.cur_fn), k.value.id), []):
+                    v = env.get(('$rec', k.value.id, key))
+                    if v is not None:
+                        kws.append((key, v))
+                continue
+            v = self.expr(k.value, env)
+            if k.arg is None and v.op == 'dict' and all(kk.op == 'const' and isinstance(kk.args[0], str) for kk in v.args[0]):
+                kws += [(kk.args[0], vv) for kk, vv in zip(v.args[0], v.args[1])]          # f(x, **{'a': 1, 'b': 2}) is f(x, a=1, b=2)
+            else:
+                kws.append((k.arg, v))
         args = self._splice_stars(args)
+        if f.op == 'partial':
+            # functools.partial(g, a, k=v)(b, k2=w) is g(a, b, k=v, k2=w); keywords of the call win
+            pf, pargs, pkws = f.args
+            later = {k for k, _ in kws if k is not None}
+            kws = [(k, v) for k, v in pkws if k not in later] + kws
+            args = list(pargs) + args
+            f = pf
         # f(op, *operands) with operands = gamma(c, (s, d, d), (d, d)): one call per alternative, other arguments that are selected by the
         # same condition specialised - `f(op1, s, d, d) if c else f(op2, d, d)`
         for a in args:
@@ -1050,6 +1269,58 @@ class FuncGraph:
         reference tree does not have are inlined.  Returns the replacing term or None."""
         lib = f.args[0].dotted if f.op == 'ref' and isinstance(f.args[0], Lib) else None
         plain = not any(a.op == 'star' for a in args) and all(k is not None for k, _ in kws)
+        if lib == 'functools.partial' and plain and args:
+            if args[0].op == 'partial':
+                return self.mk('partial', (args[0].args[0], tuple(args[0].args[1]) + tuple(args[1:]), tuple(args[0].args[2]) + tuple(kws)), e)
+            return self.mk('partial', (args[0], tuple(args[1:]), tuple(kws)), e)
+        if f.op == 'attr' and f.args[1] == 'join' and f.args[0].op == 'const' and isinstance(f.args[0].args[0], str) and plain and not kws and len(args) == 1:
+            # ','.join(['...n', '...nd']) is the literal; a list selected by a test gives a literal selected by that test
+            def joined(x, depth=0):
+                if x.op in ('list', 'tuple') and all(y.op == 'const' and isinstance(y.args[0], str) for y in x.args[0]):
+                    return const(f.args[0].args[0].join(y.args[0] for y in x.args[0]), e, self.fn)
+                if x.op == 'gamma' and depth < 6:
+                    a, b = joined(x.args[1], depth + 1), joined(x.args[2], depth + 1)
+                    if a is not None and b is not None:
+                        return self.mk('gamma', (x.args[0], a, b), e)
+                return None
+            j = joined(args[0])
+            if j is not None:
+                return j
+        if f.op == 'ref' and f.args[0] == ('builtin', 'zip') and plain and not kws and len(args) >= 2 and all(a.op in ('tuple', 'list') for a in args) \
+                and len({len(a.args[0]) for a in args}) == 1 and not any(x.op == 'star' for a in args for x in a.args[0]):
+            # zip((a, b), (c, d)) is ((a, c), (b, d))
+            return self.mk('tuple', (tuple(self.mk('tuple', (tuple(a.args[0][i] for a in args),), e) for i in range(len(args[0].args[0]))),), e)
+        if f.op == 'ref' and f.args[0] == ('builtin', 'enumerate') and plain and not kws and len(args) == 1 and args[0].op in ('tuple', 'list') \
+                and not any(x.op == 'star' for x in args[0].args[0]):
+            return self.mk('tuple', (tuple(self.mk('tuple', ((const(i, e, self.fn), x),), e) for i, x in enumerate(args[0].args[0])),), e)
+        if f.op == 'ref' and f.args[0] == ('builtin', 'slice') and plain and not kws and 1 <= len(args) <= 3:
+            none = const(None, e, self.fn)
+            lo, hi, st = (none, args[0], none) if len(args) == 1 else (args[0], args[1], none) if len(args) == 2 else tuple(args)
+            return self.mk('slice', (lo, hi, st), e)          # slice(None) is `:`
+        nt_fields = self._namedtuple_fields(f.args[0]) if f.op == 'ref' else None
+        if nt_fields is not None and plain:
+            # Point(a, y=b) of a NamedTuple class is the tuple (a, b) whose components also have names
+            names, defaults = nt_fields
+            given = dict(zip(names, args))
+            ok = len(args) <= len(names) and all(k in names and k not in given for k, _ in kws)
+            given.update(kws)
+            if ok and all(n in given or n in defaults for n in names):
+                items = []
+                for n in names:
+                    if n in given:
+                        items.append(given[n])
+                    else:
+                        saved = self.cur_fn
+                        self.cur_fn = _ModScope(f.args[0].mod if isinstance(f.args[0], Cls) else f.args[0][1])
+                        try:
+                            items.append(self.expr(defaults[n], {}))
+                        finally:
+                            self.cur_fn = saved
+                t = self.mk('tuple', (tuple(items),), e)
+                t.extra = ('fields', tuple(names))
+                return t
+        if f.op == 'ref' and f.args[0] == ('builtin', 'dict') and plain and not args:
+            return self.mk('dict', (tuple(const(k, e, self.fn) for k, _ in kws), tuple(v for _, v in kws)), e)          # dict(a=1) is {'a': 1}
         if lib in UFUNC_BINOP and plain and len(args) == 2 and all(k == 'out' for k, _ in kws):
             opn = UFUNC_BINOP[lib]
             if not kws:
@@ -1180,6 +1451,14 @@ class FuncGraph:
             if tail is not None:
                 self.bind(e.func.value.id, self.mk('binop', ('Add', f.args[0], tail), e), env, e)
                 return const(None, e, self.fn)
+        if f.op == 'attr' and f.args[1] in ('insert', 'pop', 'remove', 'sort', 'reverse', 'clear') and isinstance(e.func, ast.Attribute) and isinstance(e.func.value, ast.Name) \
+                and e.func.value.id in env and env[e.func.value.id] is f.args[0] and (self._list_valued(f.args[0]) or f.args[0].op == 'mutated'):
+            # a list that is changed in place by a method the forms above do not describe: afterwards the name denotes SOME list derived from the old one - not the
+            # old value (the term of the old value would claim elements and an order that no longer hold)
+            t = self.mk('call', (f, tuple(args), tuple(kws)), e)
+            self.event('call', t, e)
+            self.bind(e.func.value.id, self.mk('mutated', (f.args[0], t), e), env, e)
+            return t
         if f.op == 'attr' and f.args[1] == 'fill' and plain and len(args) == 1 and not kws and isinstance(e.func, ast.Attribute) and isinstance(e.func.value, ast.Name) \
                 and e.func.value.id in env and env[e.func.value.id] is f.args[0]:
             # x = np.empty(shape[, dtype]); x.fill(v)   is   x = np.full(shape, v[, dtype])
@@ -1397,6 +1676,8 @@ class FuncGraph:
                 return t.args[0] == 'list'
             if t.op == 'list':
                 return True
+            if t.op == 'call' and t.args[0].op == 'ref' and t.args[0].args[0] == ('builtin', 'list'):
+                return True          # list(x) is a fresh list
             if t.op == 'binop' and t.args[0] == 'Add':
                 t = t.args[1]
                 continue
@@ -1424,6 +1705,37 @@ class FuncGraph:
 
     def ex_BinOp(self, e, env):
         a, b = self.expr(e.left, env), self.expr(e.right, env)
+        # literal tuples / lists: (None,) * 2 is (None, None); (..., None) + (slice(None),) is (..., None, :)
+        if isinstance(e.op, ast.Mult):
+            for u, v in ((a, b), (b, a)):
+                if u.op in ('tuple', 'list') and v.op == 'const' and isinstance(v.args[0], int) and not isinstance(v.args[0], bool) and 0 <= v.args[0] <= 8 \
+                        and not any(x.op == 'star' for x in u.args[0]):
+                    return self.mk(u.op, (tuple(u.args[0]) * v.args[0],), e)
+        if isinstance(e.op, ast.Add) and a.op == b.op and a.op in ('tuple', 'list') and not any(x.op == 'star' for x in tuple(a.args[0]) + tuple(b.args[0])):
+            return self.mk(a.op, (tuple(a.args[0]) + tuple(b.args[0]),), e)
+        if isinstance(e.op, ast.Add):
+            # string literals: 'a' + 'b' is 'ab'; a literal selected by a test stays a literal selected by that test
+            def dead(x):
+                return x.op == 'raise' or (x.op == 'unknown' and x.args == ('keyerror',))
+
+            def cat(x, y, depth=0):
+                if dead(x):
+                    return x
+                if dead(y):
+                    return y
+                if x.op == 'const' and y.op == 'const' and isinstance(x.args[0], str) and isinstance(y.args[0], str):
+                    return const(x.args[0] + y.args[0], e, self.fn)
+                if depth < 8 and x.op == 'gamma':
+                    p, q = cat(x.args[1], y, depth + 1), cat(x.args[2], y, depth + 1)
+                    return self.mk('gamma', (x.args[0], p, q), e) if p is not None and q is not None else None
+                if depth < 8 and y.op == 'gamma':
+                    p, q = cat(x, y.args[1], depth + 1), cat(x, y.args[2], depth + 1)
+                    return self.mk('gamma', (y.args[0], p, q), e) if p is not None and q is not None else None
+                return None
+            if 'gamma' in (a.op, b.op) and {a.op, b.op} <= {'gamma', 'const'}:
+                c_ = cat(a, b)
+                if c_ is not None:
+                    return c_
         if isinstance(e.op, ast.Pow) and b.op == 'const' and b.args[0] == 0.5 and not isinstance(b.args[0], bool):
             return self._libcall('numpy.sqrt', (a,), e)          # x ** 0.5 is np.sqrt(x)
         if isinstance(e.op, ast.Add):
@@ -1538,6 +1850,9 @@ class FuncGraph:
         return self.mk('gamma', (c, a, b), e)
 
     def ex_Subscript(self, e, env):
+        if isinstance(e.value, ast.Name) and e.value.id in self.record_names() and isinstance(e.slice, ast.Constant) and e.value.id in env:
+            v = env.get(('$rec', e.value.id, e.slice.value))
+            return v if v is not None else self.mk('unknown', ('keyerror',), e)
         base, idx = self.expr(e.value, env), self.index(e.slice, env)
         if base.op == 'attr' and base.args[1] == 'shape' and idx.op == 'binop' and idx.args[0] == 'Sub' and idx.args[1].op == 'attr' and idx.args[1].args[1] == 'ndim' \
                 and _rank_root(idx.args[1].args[0]) is _rank_root(base.args[0]) and idx.args[2].op == 'const' and isinstance(idx.args[2].args[0], int) and idx.args[2].args[0] >= 1:
@@ -1646,7 +1961,11 @@ class FuncGraph:
         out = []
         for x in elts:
             if isinstance(x, ast.Starred):
-                out.append(self.mk('star', (self.expr(x.value, env),), x))
+                v = self.expr(x.value, env)
+                if v.op in ('tuple', 'list') and not any(y.op == 'star' for y in v.args[0]):
+                    out += list(v.args[0])          # (a, *(b, c)) is (a, b, c)
+                else:
+                    out.append(self.mk('star', (v,), x))
             else:
                 out.append(self.expr(x, env))
         return out
@@ -1680,6 +1999,19 @@ class FuncGraph:
         return t
 
     def _comp(self, e, env, kind, elts):
+        # [f(x) for x in (p, q)] over a short display is the display [f(p), f(q)]
+        if kind in ('list', 'gen') and len(e.generators) == 1 and not e.generators[0].ifs and not e.generators[0].is_async and not self._loops:
+            g0 = e.generators[0]
+            n_ev = len(self.events)
+            it0 = self.expr(g0.iter, env)
+            if it0.op in ('tuple', 'list') and 1 <= len(it0.args[0]) <= 6 and not any(x.op == 'star' for x in it0.args[0]):
+                vals = []
+                for item in it0.args[0]:
+                    env2 = dict(env)
+                    self._assign_display(g0.target, item, env2, e)
+                    vals.append(self.expr(elts[0], env2))
+                return self.mk('list' if kind == 'list' else 'tuple', (tuple(vals),), e)
+            del self.events[n_ev:]          # (the iterable is evaluated again below, under the comprehension guard)
         env2 = dict(env)
         iters, conds = [], []
         self._guards.append((self.nondet(e, 'comprehension'), True))
